@@ -234,6 +234,15 @@ func (o *obs) at(v *view, addr int) {
 	}
 	for i, ord := range regref.Orders {
 		rv := v.regs[i]
+		if i > 0 { // bit and byte accessors are defined on the wire bytes: the view default must not matter
+			for _, k := range []int{0, 7, 8, 15} {
+				k := k
+				o.check("Bit/other-default", ord, addr, 1, regref.Bit(w1, k), func() (any, error) { return rv.Bit(a, uint8(k)) })
+			}
+			o.check("Uint8/other-default", ord, addr, 1, regref.Byte(w1, true), func() (any, error) { return rv.Uint8(a, true) })
+			o.check("Int8/other-default", ord, addr, 1, int8(regref.Byte(w1, false)), func() (any, error) { return rv.Int8(a, false) })
+			o.check("Register/other-default", ord, addr, 1, append([]byte{}, w1...), func() (any, error) { return rv.Register(a) })
+		}
 		eff := regref.Resolve(ord, regref.ViewDefault) // order in effect when the view default is ord
 		po := packet.ByteOrder(ord)
 		u16 := uint16(regref.Uint(w1, eff))
